@@ -64,9 +64,11 @@ def prior_state(draw, allow_none=True, lies=True, conflicts=True,
         pre_ops += draw(mutate.mutations(
             spec, lay, rendered, min_ops=1, max_ops=4,
             kinds=['same-size', 'resize', 'delete', 'stray', 'stray-dir',
-                   'touch']))
+                   'touch', 'manifest']))
         if pre_ops:
             tags.append('stale')
+        if any(o['op'] == 'rewrite_manifest' for o in pre_ops):
+            tags.append('stale-manifest-ref')
     # junk files carrying Manifest names
     if junk and draw(st.integers(0, 5)) == 0:
         nodes = spec['nodes']
@@ -143,8 +145,10 @@ def edits(draw, state, max_ops=4, min_ops=0):
     """File edits between update rounds (content/size change, add, delete)."""
     spec = state['tree']
     lay = {'manifests': []}
+    # (existing Manifest files are "taken": edits never overwrite them)
     return draw(mutate.mutations(
-        spec, lay, [], min_ops=min_ops, max_ops=max_ops,
+        spec, lay, state.get('manifests', []), min_ops=min_ops,
+        max_ops=max_ops,
         kinds=['same-size', 'resize', 'delete', 'stray', 'stray',
                'stray-dir']))
 
